@@ -54,7 +54,10 @@ def replay_case(binpath, pid, path, known_ids, timeout=600):
     cmd = [binpath, "--prop", pid, "--mode", mode, "--case", path]
     if known_ids:
         cmd += ["--known", ",".join(known_ids)]
-    rc, out = run_cmd(cmd, timeout=timeout)
+    env = dict(os.environ)
+    env.setdefault("ASAN_OPTIONS", "detect_leaks=0:abort_on_error=0:allocator_may_return_null=1")
+    env.setdefault("TSAN_OPTIONS", "halt_on_error=1")
+    rc, out = run_cmd(cmd, timeout=timeout, env=env)
     return rc, out
 
 
@@ -112,16 +115,19 @@ def cmd_check(args):
     notes = []
 
     def confirm_and_record(engine, path, what, eprop=None):
-        """replay 3x in fresh processes; record a violation only if it reproduces each time"""
+        """replay 3x in fresh processes; record a violation only if it reproduces each time
+        (race reports of the ThreadSanitizer build depend on the schedule: there 5 replays are made and 2 reproductions suffice)"""
         eprop = eprop or pid
         okc = 0
         last = ""
-        for _ in range(3):
+        tsan = engine.endswith("_tsan")
+        tries, need = (5, 2) if tsan else (3, 3)
+        for _ in range(tries):
             rc, out = replay_case(bins[engine], eprop, path, known_ids)
             last = out
-            if rc == 1 or rc < 0 or rc > 4 or "ERROR: AddressSanitizer" in out or "runtime error:" in out:
+            if rc == 1 or rc < 0 or rc > 5 or "ERROR: AddressSanitizer" in out or "runtime error:" in out or "ThreadSanitizer:" in out:
                 okc += 1
-        if okc == 3:
+        if okc >= need:
             h = hashlib.sha1(open(path, "rb").read()).hexdigest()[:12]
             dst = os.path.join(viol_dir, "%s_%s%s" % (pid, h, os.path.splitext(path)[1]))
             if path.endswith(".json"):
@@ -138,7 +144,7 @@ def cmd_check(args):
                 json.dump({"engine": engine, "prop": eprop, "check": pid}, open(dst + ".meta.json", "w"))
             violations.append((what, dst, last[-1500:]))
         else:
-            notes.append("FLAKY-NOT-REPORTED %s (%d/3 reproductions)" % (path, okc))
+            notes.append("FLAKY-NOT-REPORTED %s (%d/%d reproductions)" % (path, okc, tries))
 
     # ---- replay tier: regressions (must pass) and known-finding witnesses -------------------------
     replayed = 0
@@ -214,6 +220,7 @@ def cmd_check(args):
         env = dict(os.environ)
         env.setdefault("ASAN_OPTIONS", "detect_leaks=0:abort_on_error=0:allocator_may_return_null=1")
         env.setdefault("UBSAN_OPTIONS", "print_stacktrace=1")
+        env.setdefault("TSAN_OPTIONS", "halt_on_error=1:second_deadlock_stack=1")
         t = time.time()
         rc, log = run_cmd(cmd, timeout=to, env=env)
         return job, rc, log, time.time() - t
@@ -243,7 +250,7 @@ def cmd_check(args):
             if os.path.exists(cur):
                 keep = os.path.join(work, "crash_j%d_w%d.bin" % (ji, w))
                 shutil.copyfile(cur, keep)
-                head = [l for l in log.splitlines() if "ERROR" in l or "runtime error" in l or "SUMMARY" in l]
+                head = [l for l in log.splitlines() if "ERROR" in l or "runtime error" in l or "SUMMARY" in l or "WARNING: ThreadSanitizer" in l]
                 confirm_and_record(j["engine"], keep, "engine aborted: " + (head[0][:300] if head else "exit %d" % rc), j.get("prop", pid))
             else:
                 print("HARNESS-ERROR worker produced no summary and no current case; rc=%d" % rc)
@@ -286,9 +293,11 @@ def cmd_check(args):
         if path in seen:
             continue
         seen.add(path)
+        status = 1
+        if len(seen) > 6:
+            continue            # every worker shrinks its own failing case; six replays are enough to read
         print("VIOLATION property=%s replay=%s" % (pid, path))
         print("  what: %s" % what)
-        status = 1
 
     ev = {
         "property_id": pid, "tier": tier, "seed": seed, "level": "exploration",
